@@ -4,7 +4,6 @@ import (
 	"errors"
 	"fmt"
 	"math"
-	"strconv"
 	"strings"
 
 	"github.com/shopspring/decimal"
@@ -29,36 +28,27 @@ func Abs(ctx *expr.Context, input system.Collection, args ...expr.Expression) (s
 		return nil, fmt.Errorf("%w: received %v arguments, expected 0", ErrWrongArity, len(args))
 	}
 
-	switch input[0].(type) {
+	value, err := singleNumber(input)
+	if err != nil {
+		return nil, err
+	}
+	switch v := value.(type) {
 	case system.Integer:
-		// Input type conversion to int32
-		number, err := input.ToInt32()
-		if err != nil {
-			return nil, err
+		if v == math.MinInt32 {
+			// The absolute value does not fit an Integer.
+			return system.Collection{}, nil
 		}
-		// Absolution number
-		res := math.Abs(float64(number))
-		return system.Collection{system.Integer(res)}, nil
+		if v < 0 {
+			v = -v
+		}
+		return system.Collection{v}, nil
 	case system.Decimal:
-		// Input type conversion to float64
-		number, err := input.ToFloat64()
-		if err != nil {
-			return nil, err
-		}
-		// Absolution number
-		res := math.Abs(number)
-		result := decimal.NewFromFloat(res)
-		return system.Collection{system.Decimal(result)}, nil
+		return system.Collection{system.Decimal(decimal.Decimal(v).Abs())}, nil
 	case system.Quantity:
-		quantity := strings.Split(input[0].(system.Quantity).String(), " ")
-		// Input type conversion
-		f, err := strconv.ParseFloat(quantity[0], 64)
-		if err != nil {
-			return nil, err
+		if strings.HasPrefix(v.String(), "-") {
+			v = v.Negate()
 		}
-		// Absolution number
-		res := math.Abs(f)
-		return system.Collection{system.MustParseQuantity(fmt.Sprintf("%f", res), quantity[1])}, nil
+		return system.Collection{v}, nil
 	}
 	return nil, errors.New("input is not a number")
 }
@@ -74,14 +64,18 @@ func Ceiling(ctx *expr.Context, input system.Collection, args ...expr.Expression
 	if len(args) != 0 {
 		return nil, fmt.Errorf("%w: received %v arguments, expected 0", ErrWrongArity, len(args))
 	}
-	// Input type conversion to float64
-	number, err := input.ToFloat64()
+	value, err := singleNumber(input)
 	if err != nil {
 		return nil, err
 	}
-	// Ceiling number
-	result := math.Ceil(number)
-	return system.Collection{system.Integer(result)}, nil
+	switch v := value.(type) {
+	case system.Integer:
+		return system.Collection{v}, nil
+	case system.Decimal:
+		// Smallest integer not less than the input, computed exactly; a result outside the Integer range is empty.
+		return integerOrEmpty(decimal.Decimal(v).Ceil()), nil
+	}
+	return nil, errors.New("input is not a number")
 }
 
 // Exp returns e raised to the power of the input.
@@ -121,14 +115,18 @@ func Floor(ctx *expr.Context, input system.Collection, args ...expr.Expression) 
 	if len(args) != 0 {
 		return nil, fmt.Errorf("%w: received %v arguments, expected 0", ErrWrongArity, len(args))
 	}
-	// Input type conversion to float64
-	number, err := input.ToFloat64()
+	value, err := singleNumber(input)
 	if err != nil {
 		return nil, err
 	}
-	// Flooring number
-	result := math.Floor(number)
-	return system.Collection{system.Integer(result)}, nil
+	switch v := value.(type) {
+	case system.Integer:
+		return system.Collection{v}, nil
+	case system.Decimal:
+		// Largest integer not greater than the input, computed exactly; a result outside the Integer range is empty.
+		return integerOrEmpty(decimal.Decimal(v).Floor()), nil
+	}
+	return nil, errors.New("input is not a number")
 }
 
 // Ln returns the natural logarithm of the input number.
@@ -290,19 +288,12 @@ func Round(ctx *expr.Context, input system.Collection, args ...expr.Expression) 
 		return nil, err
 	}
 	// Rounding number
-	switch value.(type) {
+	switch value := value.(type) {
 	case system.Decimal:
-		res, _ := input[0].(system.Decimal)
-		result := res.Round(precision)
-		return system.Collection{result}, nil
+		return system.Collection{value.Round(precision)}, nil
 	case system.Integer:
-		number, err := input.ToInt32()
-		if err != nil {
-			return nil, err
-		}
-		res := system.MustParseDecimal(fmt.Sprintf("%d", number))
-		result := res.Round(precision)
-		return system.Collection{result}, nil
+		res := system.MustParseDecimal(fmt.Sprintf("%d", int32(value)))
+		return system.Collection{res.Round(precision)}, nil
 	}
 	return nil, errors.New("input is not a number")
 }
@@ -344,14 +335,18 @@ func Truncate(ctx *expr.Context, input system.Collection, args ...expr.Expressio
 	if len(args) != 0 {
 		return nil, fmt.Errorf("%w: received %v arguments, expected 0", ErrWrongArity, len(args))
 	}
-	// Input type conversion to float64
-	number, err := input.ToFloat64()
+	value, err := singleNumber(input)
 	if err != nil {
 		return nil, err
 	}
-	// Ceiling number
-	result := math.Trunc(number)
-	return system.Collection{system.Integer(result)}, nil
+	switch v := value.(type) {
+	case system.Integer:
+		return system.Collection{v}, nil
+	case system.Decimal:
+		// Integer part of the input, computed exactly; a result outside the Integer range is empty.
+		return integerOrEmpty(decimal.Decimal(v).Truncate(0)), nil
+	}
+	return nil, errors.New("input is not a number")
 }
 
 func logToBase(number, base float64) float64 {
@@ -376,4 +371,27 @@ func powInt32(base, exp int32) int32 {
 		result *= base
 	}
 	return result
+}
+
+// singleNumber returns the single input item as a System value; FHIR integer,
+// decimal and Quantity elements are converted.
+func singleNumber(input system.Collection) (system.Any, error) {
+	item, err := input.ToSingleton()
+	if err != nil {
+		return nil, err
+	}
+	value, err := system.From(item)
+	if err != nil {
+		return nil, errors.New("input is not a number")
+	}
+	return value, nil
+}
+
+// integerOrEmpty returns the whole number d as an Integer, or empty when it is
+// outside the 32-bit range.
+func integerOrEmpty(d decimal.Decimal) system.Collection {
+	if d.LessThan(decimal.NewFromInt(math.MinInt32)) || d.GreaterThan(decimal.NewFromInt(math.MaxInt32)) {
+		return system.Collection{}
+	}
+	return system.Collection{system.Integer(int32(d.IntPart()))}
 }
